@@ -587,18 +587,21 @@ impl<'a> Model<'a> {
             );
         }
         self.reset_dynamic_array_spills(sheet)?;
+        // Move the cells column by column, from the last one: when the anchor of an
+        // array formula is moved its whole block is re-created at the target, which
+        // must not hold cells that are still waiting to be moved.
         let worksheet = self.workbook.worksheet(sheet)?;
-        let all_rows: Vec<i32> = worksheet.sheet_data.keys().copied().collect();
-        for row in all_rows {
-            let sorted_columns = self.get_columns_for_row(sheet, row, true)?;
-            for col in sorted_columns {
-                if col >= column {
-                    self.move_cell(sheet, row, col, row, col + column_count)?;
-                } else {
-                    // Break because columns are in descending order.
-                    break;
+        let mut cells: Vec<(i32, i32)> = Vec::new();
+        for (row, row_data) in &worksheet.sheet_data {
+            for col in row_data.keys() {
+                if *col >= column {
+                    cells.push((*row, *col));
                 }
             }
+        }
+        cells.sort_unstable_by(|a, b| b.1.cmp(&a.1).then(a.0.cmp(&b.0)));
+        for (row, col) in cells {
+            self.move_cell(sheet, row, col, row, col + column_count)?;
         }
 
         // Links move with their cells
@@ -684,22 +687,24 @@ impl<'a> Model<'a> {
         // last column being deleted
         let column_end = column + column_count - 1;
 
-        // Move cells
+        // Move the cells column by column, from the first one: when the anchor of an
+        // array formula is moved its whole block is re-created at the target, which
+        // must not hold cells that are still waiting to be moved.
         let worksheet = &self.workbook.worksheet(sheet)?;
-        let mut all_rows: Vec<i32> = worksheet.sheet_data.keys().copied().collect();
-        // We do not need to do that, but it is safer to eliminate sources of randomness in the algorithm
-        all_rows.sort_unstable();
-
-        for r in all_rows {
-            let columns: Vec<i32> = self.get_columns_for_row(sheet, r, false)?;
-            for col in columns {
-                if col >= column_start {
-                    if col > column_end {
-                        self.move_cell(sheet, r, col, r, col - column_count)?;
-                    } else {
-                        self.workbook.worksheet_mut(sheet)?.remove_cell(r, col)?;
-                    }
+        let mut cells: Vec<(i32, i32)> = Vec::new();
+        for (row, row_data) in &worksheet.sheet_data {
+            for col in row_data.keys() {
+                if *col >= column_start {
+                    cells.push((*row, *col));
                 }
+            }
+        }
+        cells.sort_unstable_by(|a, b| a.1.cmp(&b.1).then(a.0.cmp(&b.0)));
+        for (r, col) in cells {
+            if col > column_end {
+                self.move_cell(sheet, r, col, r, col - column_count)?;
+            } else {
+                self.workbook.worksheet_mut(sheet)?.remove_cell(r, col)?;
             }
         }
         // Links move with their cells; the links of the deleted columns are removed
